@@ -240,7 +240,11 @@ pub mod implementations {
 
             let result = {
                 let no_hp = value.move_out_of_heap_primitive_borrow()?;
-                let no_mut: &Primitive = &no_hp;
+                // a present optional produced by a built-in arrives boxed (see `bin_op`)
+                let no_mut: &Primitive = match no_hp.as_ref() {
+                    Primitive::Optional(Some(inner)) => inner.as_ref(),
+                    other => other,
+                };
 
                 integer_arithmetic_fits(op, &bundle.primitive(), no_mut)?;
 
@@ -261,6 +265,11 @@ pub mod implementations {
                 .pop()
                 .context("there must be a value at the top of the stack for a `bin_op_assign`")?
                 .move_out_of_heap_primitive()?;
+
+            let value = match value {
+                Primitive::Optional(Some(ref inner)) => inner.as_ref().clone(),
+                other => other,
+            };
 
             let Some(maybe_ptr) = ctx.get_last_op_item_mut() else {
                 bail!("`bin_op_assign` without a name argument will attempt to modify a pointer that is second to last on the stack, but no primitive was there");
